@@ -35,7 +35,7 @@ var specs = []Spec{
 	}},
 	{ID: "C07", Level: "exploration", MinDistinct: 50, Engines: []Engine{
 		{Name: "seq", Pkg: "./mon/c07", Procs: 1},
-		{Name: "par", Pkg: "./mon/parcap", Race: true, Env: []string{"VERIF_PROP=C07"}, DeathSig: "C07/par:process-died"},
+		{Name: "par", Pkg: "./mon/parcap", Race: true, Env: []string{"VERIF_PROP=C07"}, DeathSig: "C07/par:process-died", RepeatQuick: 3, RepeatThorough: 6},
 	}},
 	{ID: "C08", Level: "exploration", MinDistinct: 50, Engines: []Engine{
 		{Name: "seq", Pkg: "./mon/c08", Procs: 1},
